@@ -1,6 +1,7 @@
 mod c09;
 mod c12;
 mod c13;
+mod c15;
 mod c16;
 mod recdest;
 mod rng;
@@ -45,6 +46,7 @@ fn main() {
             let index: u64 = it.next().and_then(|x| x.parse().ok()).unwrap_or(0);
             let line = match args[2].as_str() {
                 "C16" => c16::one(core, seed_, index),
+                "C15" => c15::one(core),
                 "C09" | "C10" => c09::one(&args[2], core, seed_, index),
                 "C12" | "C06" | "C20" => c12::one(&args[2], core, seed_, index),
                 _ => None,
@@ -61,6 +63,7 @@ fn main() {
         ("gen", "C12") => c12::generate("C12", seed, &tier, &mut out),
         ("gen", "C06") => c12::generate("C06", seed, &tier, &mut out),
         ("gen", "C20") => c12::generate("C20", seed, &tier, &mut out),
+        ("gen", "C15") => c15::generate(seed, &tier, &mut out),
         ("gen", "C13") => c13::generate(seed, &tier, &mut out),
         ("gen", "C09") => c09::generate("C09", seed, &tier, &mut out),
         ("gen", "C10") => c09::generate("C10", seed, &tier, &mut out),
